@@ -19,6 +19,8 @@ SEMANTIC = (
     'termination', 'assert_by', 'could not prove termination', 'cannot show',
     'failed to satisfy', 'may be out of bounds', 'not satisfied', 'unable to prove',
 )
+# structural rejections by Verus itself (no rustc code): the text is outside the verifier's reach - never a verdict
+TOOL = ('cyclic self-reference', 'not supported', 'not yet support', 'unsupported', 'is not a member of', 'cannot find')
 UNDECIDED = ('resource limit', 'rlimit', 'timed out', 'timeout', 'solver')
 
 
@@ -51,7 +53,10 @@ def build_unit(unit, cfg=None, suffix='', mutate=None, canary=False, canary_at_s
     cfg = cfg or default_cfg()
     outdir = outdir or BUILD
     os.makedirs(outdir, exist_ok=True)
-    ex = Extractor(REPO, VERIF, cfg, expanded_provider=lambda: expanded_source(REPO, os.path.join(BUILD, 'cache')),
+    # units over the default feature set (and `docs`, which only gates builder bodies) use the default expansion;
+    # any other feature set (serde, no-std ...) is expanded with exactly those features
+    xf = None if set(cfg['features']) <= {'std', 'docs'} and 'std' in cfg['features'] else sorted(cfg['features'])
+    ex = Extractor(REPO, VERIF, cfg, expanded_provider=lambda: expanded_source(REPO, os.path.join(BUILD, 'cache'), xf),
                    canary=canary, canary_at_start=canary_at_start)
     text = ex.run(os.path.join(VERIF, 'contracts', unit + '.vrs'))
     if mutate:
@@ -152,6 +157,9 @@ def run_verus(path, ex, name, rlimit=None, seed=None, timeout=900, extra=(), mul
             # a rustc error code (E0277, E0308, ...): the extracted text does not compile - never a verdict
             err['class'] = 'tool'
             nonsem.append(msg)
+        elif any(u in low for u in TOOL):
+            err['class'] = 'tool'
+            nonsem.append(msg)
         elif any(u in low for u in UNDECIDED):
             err['class'] = 'undecided'
         elif any(s in low for s in SEMANTIC):
@@ -228,7 +236,16 @@ def shape_growth(unit, item, log):
     base = _SHAPES.get('%s/%s' % (unit, item))
     if now is None or base is None:
         return []
-    return sorted('%s x%d->x%d' % (k, base.get(k, 0), v) for k, v in now.items() if k != 'exit' and v > base.get(k, 0))
+    grown = ['%s x%d->x%d' % (k, base.get(k, 0), v) for k, v in now.items() if k not in ('exit', 'calls') and v > base.get(k, 0)]
+    if 'calls' in base:
+        # a callee that is itself under contract in this unit (or is declared with a contract in the template) is precise
+        known = set()
+        for it in log.items:
+            if it.get('kind') == 'fn':
+                known.add(re.split(r'::', it['name'])[-1])
+        known |= set(getattr(log, 'template_fns', ()))
+        grown += ['call of `%s`' % c for c in now.get('calls', []) if c not in base['calls'] and c not in known]
+    return sorted(grown)
 
 
 def norm_ws(s):
@@ -249,6 +266,9 @@ if __name__ == '__main__':
     import sys
     unit = sys.argv[1]
     feats = ('std', 'docs') if '--docs' in sys.argv else ('std',)
+    for a in sys.argv:
+        if a.startswith('--features='):
+            feats = tuple(a.split('=')[1].split(','))
     r = verify_unit(unit, default_cfg(feats))
     print('unit', r.name, 'status', r.status, r.reason)
     print('verified', r.verified, 'errors', r.n_errors, 'smt_ms', r.smt_ms, 'wall', round(r.wall_s, 1))
